@@ -115,6 +115,14 @@ func (fr *FuncRun) newFrame(fn *ssa.Function, parent *Frame) *Frame {
 	if parent != nil {
 		f.depth = parent.depth + 1
 	}
+	if fr.eng != nil && fr.scout == 0 {
+		if fr.eng.seenLocals == nil {
+			fr.eng.seenLocals = map[string][]localSig{}
+		}
+		if _, ok := fr.eng.seenLocals[funcDisplayName(fn)]; !ok {
+			fr.eng.seenLocals[funcDisplayName(fn)] = localsOf(fn)
+		}
+	}
 	return f
 }
 
